@@ -73,6 +73,44 @@ fn prop_info(prop: &str) -> PropInfo {
     }
 }
 
+/// Scans /repo's convenience layer for `pub fn` items and maps them to the
+/// operation kinds of the workload. Returns (functions found, functions for
+/// which no operation was executed in this batch).
+fn wrapper_census(op_kinds: &BTreeMap<String, u64>) -> (Vec<String>, Vec<String>) {
+    let files = [
+        ("src/builtins/compiled/zoneddatetime.rs", "zdt."),
+        ("src/builtins/compiled/duration.rs", "duration."),
+        ("src/builtins/compiled/instant.rs", "instant."),
+        ("src/builtins/compiled/plain_date_time.rs", "pdt."),
+        ("src/builtins/compiled/mod.rs", "relative_to."),
+        ("src/builtins/compiled/now.rs", "now."),
+    ];
+    let mut found = vec![];
+    for (f, prefix) in files {
+        let Ok(text) = std::fs::read_to_string(format!("/repo/{f}")) else { continue };
+        // stop at the test module
+        let text = text.split("\nmod tests").next().unwrap_or("").to_string();
+        for line in text.lines() {
+            let l = line.trim_start();
+            if let Some(rest) = l.strip_prefix("pub fn ") {
+                let name: String = rest.chars().take_while(|c| c.is_alphanumeric() || *c == '_').collect();
+                found.push(format!("{prefix}{name}"));
+            }
+        }
+        if f.ends_with("zoneddatetime.rs") && text.contains("impl core::fmt::Display for ZonedDateTime") {
+            found.push("zdt.display".to_string());
+        }
+    }
+    // `sys` functions of core/now.rs
+    for n in ["now.instant", "now.time_zone_identifier", "now.zoneddatetime_iso"] {
+        found.push(n.to_string());
+    }
+    found.sort();
+    found.dedup();
+    let missing = found.iter().filter(|k| op_kinds.get(*k).copied().unwrap_or(0) == 0).cloned().collect();
+    (found, missing)
+}
+
 pub fn check(args: &[String]) -> i32 {
     let prop = arg(args, "--prop").expect("--prop");
     let tier = arg(args, "--tier").unwrap_or_else(|| "quick".into());
@@ -221,6 +259,7 @@ pub fn check(args: &[String]) -> i32 {
     let mut fired = BTreeMap::new();
     let mut probes = BTreeMap::new();
     let mut cats = BTreeMap::new();
+    let mut op_kinds: BTreeMap<String, u64> = BTreeMap::new();
     let mut strategies = BTreeMap::new();
     let mut counters = BTreeMap::new();
     let mut known_hits = BTreeMap::new();
@@ -240,6 +279,7 @@ pub fn check(args: &[String]) -> i32 {
         merge_map(&mut fired, &d["fired"]);
         merge_map(&mut probes, &d["probes"]);
         merge_map(&mut cats, &d["outcome_categories"]);
+        merge_map(&mut op_kinds, &d["op_kinds"]);
         merge_map(&mut strategies, &d["strategies"]);
         merge_map(&mut counters, &d["counters"]);
         merge_map(&mut known_hits, &d["known_hits"]);
@@ -316,6 +356,12 @@ pub fn check(args: &[String]) -> i32 {
             "tzif::parse_tzif_file (six-line wrapper re-stated over Env::open)"
         ],
     });
+    coverage["operations_per_kind"] = to_json(&op_kinds);
+    // Which convenience functions exist in the source tree right now, and
+    // were all of them exercised?
+    let (in_source, missing) = wrapper_census(&op_kinds);
+    coverage["convenience_functions_in_source"] = json!(in_source);
+    coverage["convenience_functions_not_exercised"] = json!(missing);
     if let Some(e) = extra {
         coverage["additional_engines"] = e;
     }
